@@ -3,7 +3,8 @@ CHECK = {'level': 'exploration',
  'rule': 'exhaustive header pairs over (height,maxHeightGenerated,maxHeightPrevoted) in 0..R x same/different generator + rapid pairs over uint32 '
          'boundary values; fork-choice inputs over all equality patterns with every instant (header timestamps, reception of the tip, now) at a drawn offset inside its slot; real-time sequences (2-second slots) of 1-3 competing blocks for one height through Executer.process, each late or on time, by the same or another generator, with or without a slot of waiting in between; chains of a protocol-following generator replayed through the real BFT '
          'module. Non-trivial = same-generator pair with at least one field tie, or a fork-choice input on which >=2 predicates are true, or a chain '
-         'case in which the generator switched chains; distinct by digest of the field tuple',
+         'case in which the generator switched chains; distinct by digest of the field tuple'
+         " Plus TestWideWindow (60 cases quick / 400 per thorough shard): batch sizes 3-150 (nothing in the engine limits the batch size; mainnet 103), the generator's earlier block placed around the far edge of the 3*batchSize window defined on the harness's own header list, candidate header denying or admitting it; verdict = inside the window AND the LIP-0014 pair rule (non-trivial = batch size above 101, place beyond 303, block denied).",
  'level_text': 'Exhaustive comparison of the contradiction relation with the LIP-0014 definition and with the semantic statement (neither header is '
                'a legitimate successor of the other) over all field triples in 0..6 (0..8 thorough), random uint32 pairs, all fork-choice predicate '
                'patterns with the first-match classification order, and replayed two-branch chains of protocol-following generators through the real '
